@@ -188,6 +188,7 @@ CHECKS["C17"] = {
 
 CHECKS["C27"] = {
     "level": "exploration",
+    "crash_is_violation": True,
     "technique": "runtime monitoring: reference-matcher oracle over callback events of the real client library driven by a scripted gateway (virtual time); exhaustive single-filter x name matrix",
     "level_text": "Every one of the 105 filters over a small level alphabet (with '+', '#', empty levels) is subscribed alone and all 39 topic names are delivered to it (exhaustive for that matrix); two-filter sets are sampled in the quick tier and enumerated in the thorough tier; random subscribe/unsubscribe histories on top. The recorded callback invocations are compared with an independent MQTT topic matcher, before and after Unsubscribe. Third front: the subscriptions change between the arrival of a message and its delivery (QoS 2: PUBREL held back) - Unsubscribe, re-Subscribe with another callback, a re-Subscribe the gateway refuses, Subscribe of another matching filter.",
     "level_note": "which of several matching callbacks runs is not constrained (the property asks for 'a' matching subscription)",
